@@ -923,3 +923,13 @@ m('NS1-flatten-up-to-looks-up-globally', 'C12', 'NS1', 'PyTreeSpec::FlattenUpTo/
   'src/treespec/flatten.cpp',
   """                        PyTreeTypeRegistry::Lookup<NONE_IS_NODE>(py::type::of(object), m_namespace);""",
   """                        PyTreeTypeRegistry::Lookup<NONE_IS_NODE>(py::type::of(object), "");""")
+m('NS1-predicate-dropped-in-recursion', 'C02', 'NS1', 'PyTreeSpec::FlattenIntoImpl/recursion-hands-on-its-references',
+  'src/treespec/flatten.cpp',
+  """                                                                            depth + 1,
+                                                                            leaf_predicate,
+                                                                            registry_namespace);
+        };""",
+  """                                                                            depth + 1,
+                                                                            std::nullopt,
+                                                                            registry_namespace);
+        };""")
